@@ -21,6 +21,21 @@ def gen_case(rng):
     return dict(current=ver(), scope=rng.choice(["default", "global", "branch"]), tags_all=tags_all, tags_branch=tags_branch)
 
 
+def scope_case(cfg_scope, cli_scope):
+    """Directed: config tag_scope and --tag-scope (dis)agree; the newest tag is 0.2.0 on another branch, 0.1.9 on this one."""
+    from shadows.project import plain_scenario, check_scenario
+
+    # fake git: `tag --list` prints all of sc.tags, `tag --list --merged` all but the last two
+    sc = plain_scenario(scope=cfg_scope, cli_scope=cli_scope, tags=["0.1.9", "junk", "0.2.0", "0.1.10"], current="0.1.9")
+    r = check_scenario(0, sc=sc)
+    bad = {k: v for k, v in r.items() if k in ("C09", "C01") or k == "_error"}
+    return f"config tag_scope={cfg_scope}, --tag-scope {cli_scope}: {bad}" if bad else None
+
+
+def replay_scope_case(cfg_scope, cli_scope):
+    return scope_case(cfg_scope, cli_scope) is None
+
+
 def check_case(case):
     ensure_src()
     import logging
@@ -90,6 +105,29 @@ def run(tier="quick", seed=0):
             witness=[dict(case=bad[0], problem=bad[1])] if bad else [],
             observed=bad[1] if bad else None,
             python_replay=(dict(module="checks.c09", function="replay_case", args=[bad[0]]) if bad else None),
+        )
+    )
+    pairs = [(c, k) for c in ("default", "global", "branch") for k in (None, "default", "global", "branch")]
+    bad2 = []
+    for c, k in pairs:
+        try:
+            r = scope_case(c, k)
+        except Exception as e:  # noqa
+            r = f"exception {type(e).__name__}: {e}"
+        if r is not None:
+            bad2.append(((c, k), r))
+    out.append(
+        dict(
+            name="C09.tag_scope.command_line_scope_overrides_config_scope_before_tags_are_consulted",
+            kind="B",
+            verdict="held" if not bad2 else "refuted",
+            cases=len(pairs),
+            distinct=len(pairs),
+            bound=f"{len(pairs)} directed projects: config tag_scope x --tag-scope (absent or given), newest tag on another branch; real CLI, fake git",
+            witness=[dict(case=list(c), problem=r) for c, r in bad2[:3]],
+            observed=bad2[0][1] if bad2 else None,
+            sample=[list(p) for p in pairs[:3]],
+            python_replay=(dict(module="checks.c09", function="replay_scope_case", args=list(bad2[0][0])) if bad2 else None),
         )
     )
     return out
